@@ -133,7 +133,7 @@ for _p, _r in {
 
 claim("C12",
       "Bounded symbolic model check of immutability as a two-run differential on the real code: an item or message is built from caller-owned slices with symbolic contents "
-      "(15 secs2 constructor shapes x 0..2 elements (thorough 3), string items, the copying and the owning Decode; data messages built directly / from a header / through Derive, their re-stamped copies, "
+      "(15 secs2 constructor shapes x 0..3 elements (thorough 4), string items, the copying and the owning Decode; data messages built directly / from a header / through Derive, their re-stamped copies, "
       "control and data messages from the three frame decode entry points), fully observed through the public accessor/serializer/append surface, then every caller-visible slice and array "
       "(constructor inputs, the decoded buffer, every slice ANY accessor of the object or of its copies returned, including spare capacity) is overwritten with symbolic non-zero XOR masks, and observed again: "
       "the solver decides for all contents and all overwrite values that the observations are equal (an aliased backing array makes the second observation a function of the mask). "
